@@ -11,14 +11,14 @@ import (
 )
 
 type Run struct {
-	L       *Loaded
-	Prop    string
-	Tier    string
-	Seed    int
-	Only    string
+	L        *Loaded
+	Prop     string
+	Tier     string
+	Seed     int
+	Only     string
 	ObFilter string
-	Verbose bool
-	Start   time.Time
+	Verbose  bool
+	Start    time.Time
 }
 
 type KnownFinding struct {
@@ -422,20 +422,20 @@ func (r *Run) writeEvidence(units []*Unit, results []*ObResult, discharged, viol
 		"wall_s":      time.Since(r.Start).Seconds(),
 		"violations":  violations,
 		"coverage": map[string]interface{}{
-			"obligations":  len(results) - kn,
-			"discharged":   discharged,
-			"known_findings": kn,
-			"known_findings_note": "obligations listed in /verif/known_findings.json are reported as KNOWN-FINDING, are not counted in 'obligations' and are not claimed proved",
-			"checker_cmd":  fmt.Sprintf("bin/jvc check %s --tier %s  (VC generation over go/ssa of /repo/jen; z3-new 5.1.0 | z3 4.8.12 | cvc5 1.0 raced per obligation)", r.Prop, r.Tier),
-			"trusted_base": sortedKeys(trusted),
+			"obligations":              len(results) - kn,
+			"discharged":               discharged,
+			"known_findings":           kn,
+			"known_findings_note":      "obligations listed in /verif/known_findings.json are reported as KNOWN-FINDING, are not counted in 'obligations' and are not claimed proved",
+			"checker_cmd":              fmt.Sprintf("bin/jvc check %s --tier %s  (VC generation over go/ssa of /repo/jen; z3-new 5.1.0 | z3 4.8.12 | cvc5 1.0 raced per obligation)", r.Prop, r.Tier),
+			"trusted_base":             sortedKeys(trusted),
 			"functions_under_contract": fnames,
-			"path_segments": paths,
-			"obligations_by_backend": bySolver,
-			"solver_time_s": float64(solverMs) / 1000,
-			"vacuity_guard": map[string]int{"cover_queries": coverN, "shown_satisfiable": coverSat, "vacuous": vacuous},
-			"undecided":    undecided,
-			"results":      results,
-			"samples":      samples,
+			"path_segments":            paths,
+			"obligations_by_backend":   bySolver,
+			"solver_time_s":            float64(solverMs) / 1000,
+			"vacuity_guard":            map[string]int{"cover_queries": coverN, "shown_satisfiable": coverSat, "vacuous": vacuous},
+			"undecided":                undecided,
+			"results":                  results,
+			"samples":                  samples,
 		},
 		"assumptions": r.assumptions(),
 	}
